@@ -174,6 +174,47 @@ Example C01_text_verbatim :
   encode_row 7 [MStr [101; 204; 129]] <> encode_row 7 [MStr [195; 169]].
 Proof. split; [vm_compute; reflexivity | vm_compute; discriminate]. Qed.
 
+(* ---- every entry point (round 5).  [from_bytes_cls c] is cls.from_bytes for the base class, for a class made by
+   Row.create_class with any number of field names (plain or tuples_only), and for from_bytes_cython called directly;
+   [encode_row_cls c] is cls(row).as_bytes.  They agree with [decode_row] / [encode_row], whatever the class: the width
+   of a row is the number of values it holds, not the number of field names of its class. ---- *)
+Theorem C01_entry_points_agree :
+  forall (c : row_cls),
+  (forall data, from_bytes_cls c data = decode_row data) /\
+  (forall ts row, encode_row_cls c ts row = encode_row ts row).
+Proof. intros c. split; [apply from_bytes_cls_agrees | apply encode_row_cls_agrees]. Qed.
+Print Assumptions C01_entry_points_agree.
+
+(* Lossless through any pair of entry points: written by class c, read back by class c'. *)
+Theorem C01_roundtrip_any_class :
+  forall (c c' : row_cls) (ts : N) (row : list mval) (r : bytes),
+  encode_row_cls c ts row = Ok r -> no_datetime row = true -> from_bytes_cls c' r = Ok (map CVal row).
+Proof. exact roundtrip_any_class. Qed.
+Print Assumptions C01_roundtrip_any_class.
+
+(* Self-delimiting through any pair of entry points: every strict prefix, every non-empty extension and every
+   single-bit change of the version nibble / length field of a record written by class c is rejected by class c'. *)
+Theorem C01_rejected_any_class :
+  forall (c c' : row_cls) (ts : N) (row : list mval) (r x : bytes),
+  encode_row_cls c ts row = Ok r ->
+  (exists k, (k < length r)%nat /\ x = firstn k r) \/ (exists s, s <> [] /\ x = r ++ s) \/
+  (exists i b, ((i = 0 /\ 4 <= b < 8) \/ (2 <= i <= 5 /\ b < 8)) /\ x = flip_at r i b) ->
+  from_bytes_cls c' x = Raise DataError.
+Proof. exact rejected_any_class. Qed.
+Print Assumptions C01_rejected_any_class.
+
+(* the model does tell a class-dependent reader apart: the variant that pads a decoded row with nulls up to the
+   number of field names ([from_bytes_padded]) returns three cells for a two-value row read through a three-field
+   class.  (A statement about the variant, not about /repo.) *)
+Example C01_padding_variant_refuted :
+  match encode_row_cls (Made 3 false) 7 [MInt 1; MInt 2] with
+  | Ok r => from_bytes_cls (Made 3 false) r = Ok [CVal (MInt 1); CVal (MInt 2)] /\
+            from_bytes_padded (Made 3 false) r = Ok [CVal (MInt 1); CVal (MInt 2); CVal MNil] /\
+            from_bytes_padded Base r = Ok [CVal (MInt 1); CVal (MInt 2)]
+  | Raise _ => False
+  end.
+Proof. vm_compute. repeat split. Qed.
+
 (* ---- every schedule (round 2): Row.as_bytes run by any number of threads, switched between any two of its
    statements.  [run step fin sched sh th] gives one turn to each thread id of [sched] in order; [enc_step] is
    as_bytes statement by statement (Model/C01_Sched.v); [Sh] is whatever module-level state exists - as_bytes
